@@ -311,7 +311,9 @@ func c08TimedBad(arr []int, end, dms, t0 int) bool {
 
 // timingOK: none of the clauses that depend on scheduling failed.
 func (o c08obs) timingOK() bool {
-	return !o.early && !o.timedBad && o.prompt != "false" && o.resends != "toofew" && o.resends != "toomany" && o.goroutines != "false" && o.fds != "false"
+	// (the goroutine and descriptor census is NOT re-measured here: a leak that shows in every second run would
+	// survive three attempts one time in eight, and ./check runs a failing case again, alone, anyway)
+	return !o.early && !o.timedBad && o.prompt != "false" && o.resends != "toofew" && o.resends != "toomany"
 }
 
 func c08Class(err error) string {
